@@ -18,6 +18,7 @@ Oracle clauses:
                              reaches no process method
   subscribe_timeout          a timed-out subscriber registration prevents the process from being created or run
 """
+import asyncio
 import copy
 import re
 
@@ -51,7 +52,7 @@ COMPONENTS = {
 }
 ASSUMPTIONS = ['the broker preserves the order of broadcasts of one publisher', 'FIFO ready queue',
                'only the first response to a duplicated request reaches the caller']
-EXPECTED_COUNTERS = ['flavour:quiescent', 'flavour:timed', 'flavour:bfault', 'flavour:subtimeout', 'msg:rpc', 'msg:bcast',
+EXPECTED_COUNTERS = ['comm:loop_communicator', 'flavour:quiescent', 'flavour:timed', 'flavour:bfault', 'flavour:subtimeout', 'msg:rpc', 'msg:bcast',
                      'msg:thread_controller', 'net:duplicated', 'net:reordered', 'net:delayed', 'probe:handled_while_stepping',
                      'probe:late_message', 'probe:reply_cancelled', 'bfault:ConnectionClosed', 'bfault:ChannelInvalidStateError',
                      'bfault:TimeoutError']
@@ -121,6 +122,8 @@ def random_case(rng, tier):
     program = programs.gen_process_program(rng, PROGRAM_CFG)
     flavour = rng.choice(['quiescent', 'quiescent', 'timed', 'timed', 'bfault', 'subtimeout'])
     opts = {'comm': True, 'pid': PID}
+    if rng.random() < 0.4:
+        opts['wrap'] = True  # the process is given plumpy's LoopCommunicator around the transport
     schedule = []
     n_max = 4 if tier == 'quick' else 6
     if flavour == 'quiescent':
@@ -402,6 +405,8 @@ def _oracle_single(case, engine, proc, communicator, data, result, late_reply, c
     calls = data['calls']
     handled_live = [c for c in calls[:calls_before_late] if c[3]]
     result.nontrivial = bool(handled_live) or flavour in ('bfault', 'subtimeout')
+    if case['opts'].get('wrap'):
+        result.counters['comm:loop_communicator'] += 1
     for action in case['schedule']:
         if action['act'] in ('rpc', 'bcast'):
             result.counters[f'msg:{action["act"]}'] += 1
@@ -420,6 +425,11 @@ def _oracle_single(case, engine, proc, communicator, data, result, late_reply, c
             continue
         outcome = comm.unwrap(record.result)
         intent = action['intent']
+        if asyncio.isfuture(record.result) and record.result.done() and not record.result.cancelled() \
+                and record.result.exception() is None and comm._isfuture(record.result.result()):
+            result.violate('reply_is_future', f'{intent}:{"wrapped" if case["opts"].get("wrap") else "raw"}',
+                           f'RemoteProcessController returned a future object as the reply to {intent}: '
+                           f'{record.result.result()!r}')
         if outcome[0] == 'pending':
             result.violate('reply_pending', intent, f'the reply to the {intent} request ({action.get("msg")!r}) is still '
                                                     f'pending at level {outcome[1]} although the loop is quiescent')
